@@ -597,6 +597,7 @@ type runner struct {
 	f     *common.Flags
 	res   *common.Result
 	m     *common.Model
+	ms    *common.Model // the translated source (srcmodel.go), nil when not built
 	batch []tcase
 	impl  []string
 	tags  []string
@@ -613,6 +614,7 @@ func (rn *runner) flush() {
 	for i, c := range rn.batch {
 		reqs[i] = c.req()
 	}
+	rn.flushSrc()
 	ans, err := rn.m.Ask(reqs)
 	if err != nil {
 		rn.res.Notes = append(rn.res.Notes, "model error: "+err.Error())
@@ -815,15 +817,19 @@ func main() {
 	}
 	defer m.Close()
 	rn := &runner{f: f, res: res, m: m, nshr: map[string]int{}}
+	rn.startSrc()
+	defer rn.closeSrc()
 	if f.Tier == "thorough" {
 		modelMax = 400 << 10
 	}
 	res.Rule = "a case counts as non-trivial when the texts differ (Diff goes through lines, tgs and the hunk loop); " +
 		"compared: all bytes returned by diff.Diff vs render of the model (for private copies and for every applicable layout of the two texts in one shared buffer), and the diff logged by failing testscript cmp/cmpenv lines vs render on (a, expanded b); " +
+		"also compared: the same bytes vs the TRANSLATION of diff.go (Gen/DiffSrc.v extracted, fuel = len(old)+1) on every case up to srcMax bytes (bucket translated-source:*); " +
 		"oracles: independent unified-diff parser + forward and reverse patch application, header, order, counts, start lines, empty-iff-identical, no panic. " +
 		"Dimensions (CONVENTIONS addendum 4): [1 state between calls] result-stable-across-calls: a window of the last results kept alive as returned and re-verified after every later call, after calls from a second goroutine, and in sections where 4 goroutines call Diff at once; 4 testscript runs at once in consumer mode. " +
 		"[2 caller's memory] every pair also as two views of ONE buffer: apart with/without spare capacity over live guard bytes, adjacent in both orders, and when the values allow it same start with different lengths, overlapping, one inside the other (a generator cuts such pairs out of one text); inputs-unchanged over the whole buffer; result-independent-of-input-memory (buffer overwritten after the call). " +
 		"[4 sizes] lines > 64 KiB and > 1 MiB, texts of > 4096 lines (direct oracles; the model only up to modelMax bytes). " +
+		"[lines equal only to a cheap comparison] pairs of DIFFERENT lines with the same CRC-32 (IEEE, Castagnoli, Koopman), Adler-32, FNV-1/1a 32, FNV 64 cut or folded to 32, h*31+c / h*33+c / sdbm, byte sum, byte xor, length+first+last byte (found by a birthday search over 360 k generated lines, a function of the seed, cached in the work directory) and pairs equal under case / blank / CR / BOM / NFC folding, a common prefix or suffix of 8..128 bytes or equal length; each planted as the only difference, first/last line, with/without final newline, 0..12 common lines away from other edits, swapped, repeated, two pairs at once. [moved lines] all permutations of <= 7 distinct lines, block moves, rotations, reversals, shuffles of up to 60 mostly unique lines. " +
 		"[6 data that looks like syntax] printf verbs, diff syntax, the no-newline message, BOM, CR/CRLF, NUL, invalid UTF-8 in lines; every pair of file names from a list with blanks, verbs, diff syntax, a newline. " +
 		"[3 resources, 5 faults, 7 host] do not apply: Diff is a pure function of its arguments (no files, no callbacks, no environment). [8] a source that cannot be tied (REGEN/shape break) still gets every oracle above"
 
@@ -948,6 +954,50 @@ func main() {
 	}
 	rn.flush()
 	lap("views")
+	// 3c. different lines that a cheap comparison (checksum, hash, normalised form, prefix) takes for
+	// equal, planted as the only difference, next to other edits and around the context width (collide.go)
+	perPair := 30
+	if f.Tier == "thorough" {
+		perPair = 400
+	}
+	held = append(held, rn.collisions(rng.Fork(), perPair)...)
+	rn.flush()
+	lap("collide")
+	// 3d. lines that keep their content but change their order: every permutation of up to 7
+	// (thorough: 8) distinct lines, then block moves / rotations / reversals / shuffles of longer texts
+	maxPerm := 7
+	if f.Tier == "thorough" {
+		maxPerm = 8
+	}
+	for k := 4; k <= maxPerm; k++ {
+		i := 0
+		permutations(k, func(p []int) {
+			c := permCase(p, i%5 != 0)
+			rn.one(c, "permutations")
+			if i%211 == 0 {
+				held = append(held, c)
+			}
+			i++
+		})
+	}
+	rp := rng.Fork()
+	np := 3000
+	if f.Tier == "thorough" {
+		np = 60000
+	}
+	for i := 0; i < np; i++ {
+		ml := 14
+		if i%4 == 0 {
+			ml = 60
+		}
+		c := genPerm(rp, ml)
+		rn.one(c, "moved-lines")
+		if i%40 == 0 {
+			held = append(held, c)
+		}
+	}
+	rn.flush()
+	lap("moved-lines")
 	// 4. raw bytes
 	rb := rng.Fork()
 	nb := 8000
